@@ -148,3 +148,66 @@ Theorem C20_no_foreign_jump_builder : forall nodes init lit fuel root,
   build nodes init lit fuel root <> Err E_foreign_jump.
 Proof. exact C20_no_foreign_jump_builder_proof. Qed.
 Print Assumptions C20_no_foreign_jump_builder.
+
+(* ---- the operator fragment: frame and relocation WITHOUT the exclusion of class C05-K2 ---- *)
+(* [Spec.Pratt.pratt] is the reference operator-precedence parser; it is defined on the whole
+   operator fragment of the token language (atoms, prefix / suffix / binary operators,
+   conditionals and else-chains, brackets).  For every token list on which it is defined the
+   parser model accepts and links a proper tree outside C05-K2
+   (C05_operator_expressions_not_K2, Properties/C05.v), so the hypothesis [~ Known_C05_K2 t] of
+   the theorems above is met and can be dropped (Proofs/C20/OperatorFragment.v). *)
+From GV Require Spec.Pratt.
+From GV Require Import Proofs.C20.OperatorFragment.
+
+(* frame: such a token list is accepted, its node array is a proper tree, and every successful
+   build of it -- into a data object in ANY initial state, with any literal oracle and fuel --
+   refers to its own jump entries and instructions only, and reports one of its own jump
+   entries (the conclusion of C20_frame_full_builder) *)
+Theorem C20_frame_operator_expressions : forall toks rt, Pratt.pratt toks = Some rt ->
+  exists root nodes t,
+    parse toks = Ok (root, nodes) /\ tree_of nodes root = Some t /\
+    forall init lit fuel r,
+      build nodes init lit fuel root = Ok r -> own_code init (code_of_build r) = true.
+Proof. exact C20_frame_operator_expressions_proof. Qed.
+Print Assumptions C20_frame_operator_expressions.
+
+(* relocation: ... and every successful build into a data object that already holds a program
+   is the build into the empty data object (any fuel for either), relocated by the two table
+   lengths (the conclusion of C20_relocated_full_builder / C20_relocated_full_parsed) *)
+Theorem C20_relocated_operator_expressions : forall toks rt, Pratt.pratt toks = Some rt ->
+  exists root nodes t,
+    parse toks = Ok (root, nodes) /\ tree_of nodes root = Some t /\
+    forall init lit fuel fuel0 r r0,
+      build nodes init lit fuel root = Ok r -> build nodes empty_init lit fuel0 root = Ok r0 ->
+      relocated init (code_of_build r0) (code_of_build r) = true /\ own_code init (code_of_build r) = true.
+Proof. exact C20_relocated_operator_expressions_proof. Qed.
+Print Assumptions C20_relocated_operator_expressions.
+
+(* non-vacuity: `a ?> b + 1 |> c !> d * 2 |> (e ?> f) && g || h` (the 23 tokens of
+   C05_ex_operator_expression: a two-arm else-chain whose last arm has a bracketed conditional
+   as left operand of &&) is in the fragment and is accepted; built alone it has 10 jump
+   entries; built after a program of 9 instructions / 4 jump entries ending in JumpTo it is a
+   DIFFERENT code, namely the alone code relocated: every jump entry moved by 9, the reported
+   entry by 4, and it refers to its own entries only *)
+Example C20_ex_operator_expression :
+  let toks := [TT_Identifier; TT_JumpIfTrue; TT_Identifier; TT_PlusSign; TT_Number; TT_ElseJump;
+               TT_Identifier; TT_JumpIfFalse; TT_Identifier; TT_MultiplicationSign; TT_Number; TT_ElseJump;
+               TT_StartGroup; TT_Identifier; TT_JumpIfTrue; TT_Identifier; TT_EndGroup; TT_Whitespace; TT_And;
+               TT_Whitespace; TT_Identifier; TT_Or; TT_Identifier] in
+  let init := mkInit 9 4 (Some (I_JumpTo, ONum 3)) in
+  match Pratt.pratt toks, parse toks with
+  | Some _, Ok (root, nodes) =>
+    match build nodes empty_init lit_all (build_fuel nodes) root,
+          build nodes init lit_all (build_fuel nodes) root with
+    | Ok r0, Ok r =>
+      relocated init (code_of_build r0) (code_of_build r) = true /\
+      own_code init (code_of_build r) = true /\
+      length (jumps (fst r0)) = 10 /\
+      jumps (fst r) = map (fun x => x + 9) (jumps (fst r0)) /\
+      snd r = snd r0 + 4 /\
+      code_of_build r <> code_of_build r0
+    | _, _ => False
+    end
+  | _, _ => False
+  end.
+Proof. vm_compute. repeat split; try reflexivity. discriminate. Qed.
